@@ -2,6 +2,9 @@
 """tools_seed_r4_keep.py <ID> <k> <CATCHING-PROP> [note]: store round-4 seed /tmp/seed4/<ID>-out/m<k> as seeded/<ID>-r4m<k> using the verification
 results in .work-sv-<ID>-m<k>-*.json (suite/demo from the run against its own property, catch from <CATCHING-PROP>)."""
 import json, os, subprocess, sys, glob
+ROOT = os.environ.get("SEED_ROOT", "/tmp/seed4")
+ROUND = os.environ.get("SEED_ROUND", "r4")
+TAG = os.environ.get("SEED_TAG", "")
 id_, k, prop = sys.argv[1], sys.argv[2], sys.argv[3]
 note = sys.argv[4] if len(sys.argv) > 4 else ""
 def last_json(p):
@@ -12,12 +15,12 @@ def last_json(p):
             continue
     return None
 base = None
-for p in sorted(glob.glob(f"/verif/.work-sv-{id_}-m{k}-*.json")):
+for p in sorted(glob.glob(f"/verif/.work-sv{TAG}-{id_}-m{k}-*.json")):
     r = last_json(p)
     if r and r.get("suite_passes") is not None:
         base = r
 catch = None
-for p in sorted(glob.glob(f"/verif/.work-sv-{id_}-m{k}-{prop}*.json")):
+for p in sorted(glob.glob(f"/verif/.work-sv{TAG}-{id_}-m{k}-{prop}*.json")):
     r = last_json(p)
     if r and r.get("caught"):
         catch = r
@@ -27,4 +30,4 @@ v = dict(base)
 for f in ("check_exit", "caught", "signatures", "check_wall_s"):
     v[f] = catch.get(f)
 assert v.get("builds") and v.get("suite_passes") and v.get("demo_ok"), v
-subprocess.run(["python3", "/verif/tools_seed_keep.py", f"/tmp/seed4/{id_}-out/m{k}", f"{id_}-r4m{k}", prop, json.dumps(v), note], check=True)
+subprocess.run(["python3", "/verif/tools_seed_keep.py", f"{ROOT}/{id_}-out/m{k}", f"{id_}-{ROUND}m{k}", prop, json.dumps(v), note], check=True)
